@@ -9,6 +9,8 @@ and looks for the line.
 
 from __future__ import annotations
 
+import asyncio
+
 import itertools
 
 from .. import spec
@@ -457,8 +459,73 @@ def cases(ctx):
     ctx.exhaustive["send-space"] = count
 
 
+async def in_flight_duplicate_case(ctx, case: dict) -> None:
+    """While the wake flush has a parked command's write pending, the application sends another command for the same key -
+    a SEPARATE Message object, with the same or a different payload / ack.  That send returns normally without a write
+    (the node is still flagged sleeping), so it is 'held for a sleeping destination' and must be handed to the transport
+    at the node's next wake: an accepted send is never dropped, also when it spells the same six fields as the line in
+    flight."""
+    from aiomysensors.model.message import Message
+    from aiomysensors.model.node import Child, Node
+
+    version = case["version"]
+    gateway, transport = new_gateway(version)
+    stepper = Stepper(gateway, transport)
+    gateway.nodes[DEST] = Node(DEST, 17, "2.0", children={0: Child(0, 3), 7: Child(7, 3)}, sleeping=True)
+    wake = 32 if gateway.protocol.VERSION == "2.2" else 22
+    first = tuple(case["first"])
+    second = tuple(case["second"])
+    await stepper.tx(Message(*first))
+    transport.take_writes()
+    transport.gate = True
+    listener = asyncio.ensure_future(stepper.rx(f"{DEST};255;3;0;{wake};1\n"))
+    for _ in range(50):
+        await asyncio.sleep(0)
+        if transport.pending:
+            break
+    ctx.case(("in-flight-duplicate", version, first, second, case["complete"]), sample=case)
+    if not transport.pending:
+        ctx.obs("in-flight-duplicate:flush-write-never-pending")
+        transport.gate = False
+        await listener
+        await stepper.close()
+        return
+    kind, exc = await stepper.tx(Message(*second))
+    wrote_now = [e[2] for e in transport.events if e[0] == "write-call"][1:]
+    future, _line, _attempt = transport.pending.pop(0)
+    future.set_result(case["complete"] == "fails")
+    transport.gate = False
+    for pending in list(transport.pending):
+        transport.pending.remove(pending)
+        pending[0].set_result(False)
+    await listener
+    for _ in range(2):
+        await stepper.rx(f"{DEST};255;3;0;{wake};1\n")
+    calls = [e[2] for e in transport.events if e[0] == "write-ok"]
+    ctx.clause("send-during-in-flight-write")
+    second_line = ";".join(str(f) for f in second) + "\n"
+    first_line = ";".join(str(f) for f in first) + "\n"
+    if kind != "ok":
+        ctx.obs("in-flight-duplicate:send-raised")
+    elif first_line == second_line:
+        expected = 2 if case["complete"] == "ok" else 1
+        # written once by the flush that was in flight (if it completed) and once for the accepted second send; a failed
+        # first write leaves ONE parked entry for the key (the newer object), written once
+        if calls.count(second_line) < expected and not wrote_now:
+            ctx.violation("silently-discarded", f"a second, separate send of {second!r:.60} was accepted while the identical "
+                                                f"parked command's flush write was pending ({case['complete']}); the line "
+                                                f"reached the transport {calls.count(second_line)} time(s), expected {expected}",
+                          case)
+    elif second_line not in calls:
+        ctx.violation("silently-discarded", f"send of {second!r:.60} accepted while the flush write of {first!r:.60} was pending; "
+                                            f"never written at the next two wakes (writes {calls!r:.160})", case)
+    await stepper.close()
+
+
 def run_case(ctx, case: dict) -> None:
-    if case.get("kind") == "mass-park":
+    if case.get("kind") == "in-flight-duplicate":
+        arun(in_flight_duplicate_case(ctx, case))
+    elif case.get("kind") == "mass-park":
         arun(mass_park_case(ctx, case))
     elif case.get("kind") == "reuse":
         arun(reuse_case(ctx, case))
@@ -511,6 +578,14 @@ def run(ctx) -> None:
         pair_pool = [[DEST, 0, 1, 0, 2, "s1"], [DEST, 0, 2, 0, 2, ""], [DEST, 0, 1, 1, 3, "s2"], [DEST, 7, 2, 0, 2, ""],
                      [DEST, 7, 1, 0, 2, "s3"], [DEST, 255, 3, 0, 13, ""], [DEST, 0, 0, 0, 6, "p"], [DEST, 255, 4, 0, 0, "fw"],
                      [DEST, 0, 2, 1, 3, "q"], [DEST, 255, 3, 0, 19, ""]]
+        for version in ("2.0", "2.1", "2.2"):
+            first = [DEST, 0, 1, 0, 2, "v"]
+            for second in ([DEST, 0, 1, 0, 2, "v"], [DEST, 0, 1, 1, 2, "v"], [DEST, 0, 1, 0, 2, "w"], [DEST, 7, 1, 0, 2, "v"],
+                           [DEST, 0, 1, 0, 3, "v"], [DEST, 0, 1, 0, 2, "V"], [DEST, 0, 1, 0, 2, "v "]):
+                for complete in ("ok", "fails"):
+                    if ctx.mine():
+                        arun(in_flight_duplicate_case(ctx, {"kind": "in-flight-duplicate", "version": version, "first": first,
+                                                            "second": second, "complete": complete}))
         for version in ("2.0", "2.1", "2.2"):
             for a, b in itertools.product(pair_pool, repeat=2):
                 if ctx.mine():
